@@ -798,16 +798,12 @@ def unrequested_check(ctx, rng, desc):
 
 
 def known_witness():
-    """A unicast host that sends one more distinct datagram than there are queries."""
+    """The witness of `unicast_excess_counterexample`: one query (scan restricted to MRP), two distinct
+    response datagrams from the host - an empty answer and a complete one."""
     dev = {"addr": 1, "host": 1, "ttl": 120, "linklocal": False, "info": None, "name": "Dev1", "services": []}
     mrp = {"type": T_MRP, "inst": "Dev1", "port": 49152, "props": [("Name", "Dev1"), ("UniqueIdentifier", "MRP-1")]}
-    air = {"type": T_AIRPLAY, "inst": "Dev1", "port": 7000, "props": [("deviceid", "AA:BB:CC:00:00:01")]}
-    from pyatv.core import mdns
-    from pyatv.support import dns
-    nq = len(mdns.create_service_queries(make_scanner(None).services, dns.QueryType.PTR))
-    dgrams = [{"src": 1, "tag": q, "recs": svc_records(dev, mrp) if q == 0 else []} for q in range(nq)]
-    dgrams.append({"src": 1, "tag": nq, "recs": svc_records(dev, air)})
-    return {"mode": "u", "protoset": None, "hosts": [1], "enc": "r", "dgrams": dgrams, "absent": [], "consistent": True}
+    dgrams = [{"src": 1, "tag": 0, "recs": []}, {"src": 1, "tag": 1, "recs": svc_records(dev, mrp)}]
+    return {"mode": "u", "protoset": [2], "hosts": [1], "enc": "r", "dgrams": dgrams, "absent": [], "consistent": True}
 
 
 def run(ctx, only=None):
@@ -848,7 +844,9 @@ def run(ctx, only=None):
     case = Case(w)
     nq = case.nq
     # 4. known limitation: more distinct datagrams than queries -> order dependent (counterexample theorem)
-    first, last = list(range(nq + 1)), [nq] + list(range(nq))
+    if nq != 1:
+        ctx.disagree({"witness": "nq"}, nq, 1, where="number of queries of an MRP-only scan")
+    first, last = [0, 1], [1, 0]
     (ra, sa), (rb, sb) = case.real(first), case.real(last)
     answers = ctx.lean([case.line(first), case.line(last)])
     for (res, shown), ans, o in (((ra, sa), answers[0], first), ((rb, sb), answers[1], last)):
